@@ -49,9 +49,12 @@ RANK = {"bool": 0, "int": 1, "float": 2, "double": 3}
 # expressions: nested lists  ["leaf", kind] ["int", n] ["bool", b] ["bin", Op, l, r] ["un", Op, x] ["cmp", Op, l, r]
 # leaf kinds: fl (float method), db (double method), it (int method), count (Count() of another collection)
 # ---------------------------------------------------------------------------------------------
-LEAF_QUERY = {"fl": "m.fl()", "db": "m.db()", "it": "m.it()", "count": 'e.Muons("m2").Count()', "acc": "acc"}
-LEAF_PY = {"fl": "FL", "db": "DB", "it": "IT", "count": "CNT", "acc": "ACC"}
-LEAF_TYPE = {"fl": "float", "db": "double", "it": "int", "count": "int"}
+# floating LITERALS (leaves whose text is the literal itself): a literal written with a fraction or exponent is a Python float -
+# a double - whatever its value (2.0 and 1e10 are not ints)
+LIT_LEAVES = {"l2": "2.0", "l10": "10000000000.0", "l25": "2.5"}
+LEAF_QUERY = {"fl": "m.fl()", "db": "m.db()", "it": "m.it()", "count": 'e.Muons("m2").Count()', "acc": "acc", **LIT_LEAVES}
+LEAF_PY = {"fl": "FL", "db": "DB", "it": "IT", "count": "CNT", "acc": "ACC", **LIT_LEAVES}
+LEAF_TYPE = {"fl": "float", "db": "double", "it": "int", "count": "int", **{k: "double" for k in LIT_LEAVES}}
 KINDS: Dict[str, Any] = {
     "int_literal": ["int", 2],
     "int_count": ["leaf", "count"],
@@ -97,6 +100,8 @@ def to_wire(x, acc_type: Optional[str] = None):
     if t == "leaf":
         if x[1] == "acc":
             return ["leaf", "@acc", acc_type or "int"]
+        if x[1] in LIT_LEAVES:
+            return ["leaf", LIT_LEAVES[x[1]], "double"]
         return ["leaf", "@" + x[1], LEAF_TYPE[x[1]]]
     if t == "int":
         return ["int", x[1]]
@@ -111,7 +116,7 @@ def py_type(x) -> str:
     """Python's static result type of the expression on the declared kinds (bool/int/float)."""
     t = x[0]
     if t == "leaf":
-        return {"fl": "float", "db": "float", "it": "int", "count": "int", "acc": "int"}[x[1]]
+        return {"fl": "float", "db": "float", "it": "int", "count": "int", "acc": "int", **{k: "float" for k in LIT_LEAVES}}[x[1]]
     if t == "int":
         return "int"
     if t in ("bool", "cmp", "chain"):
@@ -428,6 +433,12 @@ def table_rows() -> List[Dict[str, Any]]:
         for e1, e2 in ((["leaf", "it"], ["int", 3]), (["int", 7], ["leaf", "it"]), (["leaf", "it"], ["leaf", "count"]),
                        (["int", 0], ["leaf", "it"]), (["leaf", "count"], ["int", 1]), (["leaf", "it"], ["leaf", "fl"])):
             rows.append({"cls": "binop", "label": f"{op} extra", "expr": ["bin", op, e1, e2]})
+    # floating literals (integral-valued ones too) against the integer kinds and each other: the result is floating
+    for op in LISTED:
+        for lit in LIT_LEAVES:
+            for other in (["leaf", "count"], ["leaf", "it"], ["int", 3], ["leaf", "l25"]):
+                rows.append({"cls": "binop", "label": f"{op} float-literal", "expr": ["bin", op, other, ["leaf", lit]]})
+                rows.append({"cls": "binop", "label": f"{op} float-literal", "expr": ["bin", op, ["leaf", lit], other]})
     # wide integer literals on both sides of every operator, against every numeric kind
     partners = [["leaf", "count"], ["leaf", "it"], ["leaf", "fl"], ["leaf", "db"], ["int", 3]]
     for op in LISTED:
